@@ -88,8 +88,10 @@ func placeUnorderedTables(
 }
 
 // foreignKeyTarget returns the table and the column that a column of reference type points at.
-// ok is false when the reference does not have the form <table>.<column>, e.g. the name of a type
-// that is not defined (the parser keeps it as an application name and a one-element path).
+// ok is false when the column is not a reference of the form <table>.<column>: a primitive, a set or a
+// sequence, or the name of an alias, a !type, an enum or of something that is not defined (a one-element
+// path). Such a column depends on no table and gets the column type of its primitive (for a named type:
+// the default type, as for every type that has no SQL counterpart).
 func foreignKeyTarget(attrType *sysl.Type) (table, column string, ok bool) {
 	path := attrType.GetTypeRef().GetRef().GetPath()
 	if len(path) < 2 {
@@ -114,9 +116,8 @@ func findTableDepth(
 		}
 		for _, attrName := range attrNames {
 			attrType := relEntity.AttrDefs[attrName]
-			if attrType.GetTypeRef() != nil {
-				refTable, refColumn, isForeignKey := foreignKeyTarget(attrType)
-				if val, ok := visitedTableAttrs[refTable+"."+refColumn]; isForeignKey && ok {
+			if refTable, refColumn, isForeignKey := foreignKeyTarget(attrType); isForeignKey {
+				if val, ok := visitedTableAttrs[refTable+"."+refColumn]; ok {
 					newDepth := completeTableDepthMap[refTable] + 1
 					tempVisitedAttrs[tableName+"."+attrName] = val
 					if newDepth > tableDepth {
